@@ -136,7 +136,7 @@ def run_case(i, rng, rec, tier, state):
             rec.note("construct-failed (judged by C15): " + type(e).__name__)
             return
         if aged:
-            info["history"] = aging.age(s, rng, inplane=not c["tilted"])
+            info["history"], _sib = aging.age_or_sibling(s, rng, inplane=not c["tilted"])
         Vs = np.array(s.vertices, float)
         e1, e2, n = geom.plane_frame(c["normal"])
         o = Vs.mean(0)
@@ -189,7 +189,7 @@ def run_case(i, rng, rec, tier, state):
             rec.cls("curved:extreme-units")
         s = cs.Circle(ax[0], cen) if which == "Circle" else cs.Ellipse(ax[0], ax[1], cen)
         if aged:
-            info["history"] = aging.age(s, rng)
+            info["history"], _sib = aging.age_or_sibling(s, rng)
             ax = [float(s.radius)] if which == "Circle" else [float(s.a), float(s.b)]
             cen = np.array(s.centroid, float)
         a2 = [ax[0], ax[0]] if which == "Circle" else ax
